@@ -59,18 +59,18 @@ func genCase(kind string) func(t *rapid.T) Case {
 		switch kind {
 		case "C06":
 			c.Full = rapid.IntRange(0, 2).Draw(t, "full6") != 0 // 1/3: timer callbacks may stay parked across the next call
-			behs = []string{"untilcancel", "untilcancel", "success", "error", "nilroutine"}
+			behs = []string{"untilcancel", "untilcancel", "success", "error", "errcanceled", "nilroutine"}
 			kinds = []string{"setkey", "setkey", "setkey", "removekey", "removekey", "synckeys", "synckeys", "getkey", "setctx", "advance", "advance", "advance", "reset", "restart"}
 		case "C06rc":
 			c.Full = rapid.IntRange(0, 2).Draw(t, "full6rc") != 0 // 1/3: mutex sections of concurrent calls interleave
 			c.RefCount = true
-			behs = []string{"untilcancel", "untilcancel", "success", "error", "nilroutine"}
+			behs = []string{"untilcancel", "untilcancel", "success", "error", "errcanceled", "nilroutine"}
 			kinds = []string{"addref", "addref", "addref", "release", "release", "release", "release2", "rcremove", "getkey", "setctx", "advance", "advance", "advance"}
 		default: // C07
 			c.Full = rapid.IntRange(0, 2).Draw(t, "full") == 0
 			c.Delay = rapid.IntRange(0, 2).Draw(t, "delay7") == 0
-			behs = []string{"manual", "manual", "slowcancel", "slowcancel", "untilcancel", "error", "error", "success"}
-			kinds = []string{"setkey", "setkey", "removekey", "synckeys", "setctx", "setctx", "restart", "restart", "reset", "reset", "restartall", "resetall", "finish", "finish", "finish", "finish", "advance", "advance", "probe"}
+			behs = []string{"manual", "manual", "slowcancel", "slowcancel", "untilcancel", "error", "error", "errcanceled", "success"}
+			kinds = []string{"setkey", "setkey", "removekey", "synckeys", "setctx", "setctx", "restart", "restart", "reset", "reset", "restartall", "resetall", "finish", "finish", "finish", "finish", "advance", "advance", "probe", "cancelroot"}
 			if rapid.IntRange(0, 3).Draw(t, "hasbo") != 0 {
 				c.Backoff = rapid.SliceOfN(rapid.SampledFrom([]int{10, 10, 25, 50, -1, 0}), 1, 3).Draw(t, "bo")
 				// an all-zero script would retry a failing routine forever within one instant
@@ -322,6 +322,9 @@ func body(c *sched.Ctl, cs Case, v *ev.Verdict) {
 		case "success":
 		case "error":
 			err = outcome("err")
+		case "errcanceled":
+			// fails with exactly context.Canceled on its own account (its context is live)
+			err = context.Canceled
 		case "untilcancel":
 			<-ctx.Done()
 			err = ctx.Err()
@@ -398,6 +401,7 @@ func body(c *sched.Ctl, cs Case, v *ev.Verdict) {
 	unexpected := 0
 	// non-triviality
 	reRequestInDelay, doubleRelease, removeMultiRef := false, false, false
+	rootCancelled := false
 	supers := map[int]int{} // per key: supersessions while an instance of it is returning
 	twoSupers, nonRestartDuringRetry, midExit := false, false, false
 
@@ -855,6 +859,18 @@ func body(c *sched.Ctl, cs Case, v *ev.Verdict) {
 			supers[in.key] = 0
 			hm.Unlock()
 			in.release <- op.Out
+		case "cancelroot":
+			// the owner of the current root context cancels it directly (not through SetContext)
+			hm.Lock()
+			cid := m.ctxID
+			if cid == 0 || m.dead[cid] {
+				hm.Unlock()
+				return false
+			}
+			m.CancelRoot(cid)
+			rootCancelled = true
+			hm.Unlock()
+			cancels[cid]()
 		case "advance":
 			c.Settle(true)
 			time.Sleep(time.Duration(advTable[op.D]) * time.Millisecond)
@@ -1023,6 +1039,9 @@ func body(c *sched.Ctl, cs Case, v *ev.Verdict) {
 	}
 	if reRequestInDelay || doubleRelease || removeMultiRef {
 		v.SetNT("C06")
+	}
+	if rootCancelled {
+		v.Class("root-context-cancelled-by-its-owner")
 	}
 	if reRequestInDelay {
 		v.Class("re-request-inside-pending-removal")
